@@ -25,8 +25,9 @@ if missing and nx:
         ids.append(cls.replace(".", "/") + ".py::" + name)
     with tempfile.TemporaryDirectory() as td:
         x = os.path.join(td, "j.xml")
-        subprocess.run(["/venv/bin/python", "-m", "pytest", "-q", "-p", "no:cacheprovider", "--timeout=900",
-                        f"--junitxml={x}"] + ids, cwd=repo, env=env, stdout=subprocess.PIPE, stderr=subprocess.STDOUT)
+        # tests/test_cli.py first: the in-process script tests only pass once it has imported click_completion (as in the pinned order)
+        subprocess.run(["/venv/bin/python", "-m", "pytest", "-q", "-p", "no:cacheprovider", "--timeout=900", "--continue-on-collection-errors",
+                        f"--junitxml={x}", "tests/test_cli.py"] + ids, cwd=repo, env=env, stdout=subprocess.PIPE, stderr=subprocess.STDOUT)
         for tc in ET.parse(x).getroot().iter("testcase"):
             if not any(ch.tag in ("failure", "error", "skipped") for ch in tc):
                 passed.add(f"{tc.get('classname')}::{tc.get('name')}")
